@@ -4,7 +4,7 @@ from ..rules import calls_to, calls_where, order_ok, blocks_of, bool_edges, must
 from ..facts import callee_path
 from . import c03
 
-TEXT = ("The decode loop (closure passed to thread::spawn by DecodeScheduler::start) must have an exit edge; run() must yield End when the sound is Stopped, at end of data and when the audio side no longer exists; every cycle of the loop must pass a sleep, make progress (a frame pushed) or leave the loop; on error the error is queued before the flag is raised; the audio side turns the flag into Stopped + silence without reading frames; the starvation gate precedes every read; producer/consumer orderings around reached_end. Bounded-time claims and interleavings are not decided. The frame-stepping loop of the streaming sound is left only through its own guard and takes one off the fraction per iteration. into_sound starts the decoder thread on every success path. The interpolation window is buffered frames then Frame::ZERO; the decoder thread's sleep is a compile-time constant. DecodeScheduler::run is only called from the thread loop; the slice / seek rules shared with C09 and C18 keep the decoder from being asked for frames that do not exist. No path of the decoder loop's error arm leaves without raising the error flag. Every turn of the decoder thread loop goes through run(). The error flag has one writer: a store(true) in the decoder thread's loop. The frame lookup answers silence only past the end of the audio and a cached chunk answers None for what it does not hold (the lookup loop always gets back to run()). Each decoded chunk is labelled with the decoder's position at the time it was decoded (a lookup that needs several chunks finds its frame and returns).")
+TEXT = ("The decode loop (closure passed to thread::spawn by DecodeScheduler::start) must have an exit edge; run() must yield End when the sound is Stopped, at end of data and when the audio side no longer exists; every cycle of the loop must pass a sleep, make progress (a frame pushed) or leave the loop; on error the error is queued before the flag is raised; the audio side turns the flag into Stopped + silence without reading frames; the starvation gate precedes every read; producer/consumer orderings around reached_end. Bounded-time claims and interleavings are not decided. The frame-stepping loop of the streaming sound is left only through its own guard and takes one off the fraction per iteration. into_sound starts the decoder thread on every success path. The interpolation window is buffered frames then Frame::ZERO; the decoder thread's sleep is a compile-time constant. DecodeScheduler::run is only called from the thread loop; the slice / seek rules shared with C09 and C18 keep the decoder from being asked for frames that do not exist. No path of the decoder loop's error arm leaves without raising the error flag. Every turn of the decoder thread loop goes through run(). The error flag has one writer: a store(true) in the decoder thread's loop. The frame lookup answers silence only past the end of the audio and a cached chunk answers None for what it does not hold (the lookup loop always gets back to run()). Each decoded chunk is labelled with the decoder's position at the time it was decoded (a lookup that needs several chunks finds its frame and returns). Nothing in DecodeScheduler::new writes into the transport after Transport::new (which vets the loop region) has built it.")
 TECHNIQUE = 'MIR loop-cycle classification with callee summary + CFG ordering / must-pass rules'
 
 DS = 'sound::streaming::sound::decode_scheduler::DecodeScheduler::<Error>'
